@@ -355,6 +355,63 @@ def w_isolation(case, opts):
     return res
 
 
+def w_hostshare(case, opts):
+    """Host containers handed to set(): one Python object given to two contexts, given twice to one context after the host changed it,
+    and fresh containers created and dropped in a row (their addresses repeat).  Every read is compared with a deep copy the harness
+    took when it called set(); returns the list of mismatches."""
+    import copy
+    import random as _r
+    from vf import engine as E
+    rr = _r.Random(case["seed"])
+    bad = []
+    n_obs = 0
+
+    def expect(label, got, want):
+        nonlocal n_obs
+        n_obs += 1
+        if got != want:
+            bad.append([label, repr(got)[:200], repr(want)[:200]])
+
+    def mk():
+        k = rr.randint(0, 4)
+        return [[rr.randint(0, 9)], {"k": [rr.randint(0, 9)]}, [], {"a": rr.randint(0, 9), "b": [1, {"c": 2}]}, [[0], [1, [2]]]][k]
+    for rnd in range(case["rounds"]):
+        a, b = E.new_context(), E.new_context(None, 100000)
+        shared = mk()
+        snap = copy.deepcopy(shared)
+        a.set("v", shared)
+        b.set("v", shared)
+        a.eval("if (Array.isArray(v)) { v.push(3); } else { v.added = 1; }")
+        expect("other context after mutation in the first", b.get("v"), snap)
+        expect("host object after mutation by a script", shared, snap)
+        expect("other context sees its own copy from script code", b.eval("JSON.stringify(v)") == a.eval("JSON.stringify(v)"), False)
+        try:
+            a.eval("if (Array.isArray(v)) { v[0] = 99; } else { v.z = 99; } throw new Error('boom');")
+        except Exception:
+            pass
+        expect("other context after mutate-then-throw in the first", b.get("v"), snap)
+        # the host changes its object and sets it again: the new contents arrive (in both contexts)
+        if isinstance(shared, list):
+            shared.append("host")
+        else:
+            shared["host"] = [7]
+        snap2 = copy.deepcopy(shared)
+        a.set("v", shared)
+        expect("re-set after a host-side change", a.get("v"), snap2)
+        expect("untouched context keeps the earlier value", b.get("v"), snap)
+        b.set("w", shared)
+        expect("same object under a second name", b.get("w"), snap2)
+        # fresh containers in a row (address reuse)
+        for i in range(30):
+            fresh = [i, [i, {"i": i}]] if i % 2 else {"i": i, "l": [i]}
+            want = copy.deepcopy(fresh)
+            a.set("f", fresh)
+            del fresh
+            expect("fresh container %d" % (i % 2), a.get("f"), want)
+            expect("fresh container from script", a.eval("JSON.stringify(f)"), __import__("json").dumps(want, separators=(",", ":")))
+    return {"bad": bad[:20], "nbad": len(bad), "observations": n_obs}
+
+
 MUTATIONS = [
     "Math.PI = 3;", "Math.floor = function () { return 'hacked'; };", "JSON.parse = null;", "JSON.stringify = function () { return 'X'; };",
     "Object.prototype.injected = 1;", "Object.keys = function () { return ['k']; };", "Array.prototype.extra = 2;",
@@ -525,8 +582,21 @@ def main(ctx):
         ucases = [{"name": sc[0], "setup": sc[1], "fail": sc[2], "repair": sc[3], "reuse": sc[4], "expect": sc[5] if len(sc) > 5 else None} for sc in REUSE_SCENARIOS]
         ures = ep.map({"mod": "checks.C12", "fn": "w_reuse"}, ucases, batch=3, timeout=300)
         ires = ep.map({"mod": "checks.C12", "fn": "w_isolation"}, [{"mutations": CREATED_MUTATIONS + MUTATIONS, "probe": PROBE}], batch=1, timeout=300)
+        sres = ep.map({"mod": "checks.C12", "fn": "w_hostshare"}, [{"seed": ctx.seed * 31 + i, "rounds": 6 if ctx.quick else 60} for i in range(8)], batch=1, timeout=300)
     finally:
         ep.close()
+    share_obs = 0
+    for r in sres:
+        ctx.count()
+        if not r or "bad" not in r:
+            ctx.violation(("hostshare-worker-failed",), {"detail": r})
+            continue
+        share_obs += r["observations"]
+        for label, got, want in r["bad"]:
+            ctx.violation(("host-container-sharing", label.rstrip("0123456789 ")), {"observed": got, "required": want, "monitor": "deep copy taken at set() time"})
+        if not r["bad"]:
+            ctx.nontrivial(("hostshare", share_obs))
+    ctx.cov["host_container_sharing_observations"] = share_obs
     # ---- histories vs model
     hsteps = 0
     for (case, exp), r in zip(hist, hres):
